@@ -88,6 +88,9 @@ func vfC08Cases() []vfC08Case {
 		for _, tgt := range []string{"c", "s"} {
 			for k := 0; k <= maxK+4; k++ {
 				add(vfC08Case{Scenario: "hs", Variant: vi, Target: tgt, K: k, Gen: "hsdup", Idx: 0})
+				if k <= 4 {
+					add(vfC08Case{Scenario: "hs", Variant: vi, Target: tgt, K: k, Gen: "hsfarseq", Idx: 0})
+				}
 				for i := 0; i < vfC08TruncPerPoint(); i++ {
 					add(vfC08Case{Scenario: "hs", Variant: vi, Target: tgt, K: k, Gen: "hstrunc", Idx: i})
 				}
@@ -209,6 +212,18 @@ func vfC08Handshake(res *vfResult, c vfC08Case, v vfVariant) {
 				}
 			case "hsdup":
 				b = vfGenFreshDuplicates(g, cidLen)
+			case "hsfarseq":
+				// more one-byte fragments than the reassembly buffer's fragment limit, all of message sequence
+				// numbers no flight of this handshake can reach
+				_, maxCount := dtlsfragmentbuffer.VFLimits()
+				for d := 0; d*100 < maxCount+300; d++ {
+					var frags []byte
+					for q := 0; q < 100; q++ {
+						frags = append(frags, vfHSFragment(11, 5000, uint16(40000+d), uint32(q), 1, []byte{byte(q)})...)
+					}
+					b = append(b, vfHostile{Data: vfLegacyRecord(22, 0xfefd, 0, uint64(30+d), nil, -1, frags), Class: "unreachable-message-seq",
+						Note: "100 one-byte fragments of a message sequence number far beyond any flight"})
+				}
 			case "hstrunc":
 				// one truncation of the message(s) the target is about to receive, ahead of the genuine datagram
 				if toTarget {
